@@ -33,6 +33,7 @@ EXPLICIT_QUERIES = [
     '* | json | sort by a, b, s desc | limit 5 | fields + a, b, s',
     '* | json | count by arr, obj | count by _count',
     '* | json | where a / b > 1 and (s == "x" or !flag) | if(isNull(a), 0, a * a * a * a * a * a) as big',
+    '* | json | a / b as q | b / a as r | a - b as d | a + b as s2 | 0 - a as n',
     '* | json | a * b as p | p * p as q | q * q as r | r * r as s2 | s2 * s2 as t2 | t2 - t2 as z',
     '* | json | arr[0] as x | arr[-1] as y | obj.p as z | obj.q[0] as w | arr[99999999999] as v',
     '* | json from nope | json from s | logfmt from s | logfmt from t',
@@ -62,7 +63,7 @@ def hostile_inputs(rng, quick):
     yield 'invalid utf8', b'{"s": "\xff\xfe\xc3", "a": 1}\n\xc3\x28 a=1 b=\xf0\x28\x8c\x28\n' + base[:200]
     yield 'nul bytes', b'{"a": 1, "s": "a\\u0000b"}\n\x00\x00 a=1\x00\n' + base[:300]
     yield 'extreme numbers', ''.join(json.dumps({'id': i, 'a': a, 'b': b, 's': s, 't': t}) + '\n' for i, (a, b, s, t) in enumerate([
-        (2**63 - 1, -2**63, '9' * 400, '1e999'), (1e308, -1e308, '0x7fffffffffffffff', '-0'), (5e-324, 0, '-', '9223372036854775808'),
+        (-2**63, -1, 'x', '0'), (2**63 - 1, -2**63, '9' * 400, '1e999'), (1e308, -1e308, '0x7fffffffffffffff', '-0'), (5e-324, 0, '-', '9223372036854775808'),
         (0, 0, '', '0001-01-01T00:00:00Z'), (-1, 2**31, 'ff', '9999-12-31T23:59:59Z'), (1e15 + 0.5, 3, 'é' * 50, '1677-09-21T00:12:43Z'),
         (2**53 + 1, 2**32, 'NaN', '2262-04-11T23:47:17Z'), (4294967296, 0, 'inf', '275760-09-13T00:00:00Z'), (-2147483649, 1, '1,000,000.5', 'yesterday'),
         (7, 0, 'a' * 5, '2020-02-30'), (0.1, 1e-300, '0x', '12:00')])).encode('utf8')
